@@ -658,3 +658,221 @@ Section TransportProofs.
     destruct (creq_plain_cond (if a_enc a then select_encoding advertised else [])); [reflexivity|apply Hrt].
   Qed.
 End TransportProofs.
+
+(* ================================================================== 7. PE checksum *)
+Definition isb (b : Z) : Prop := 0 <= b < 256.
+Definition byte_range : list Z := map Z.of_nat (seq 0 256).
+Lemma in_byte_range b : isb b -> In b byte_range.
+Proof.
+  intros H. unfold byte_range. apply in_map_iff. exists (Z.to_nat b). split; [unfold isb in H; lia|].
+  apply in_seq. unfold isb in H. lia.
+Qed.
+Lemma ck_word_all : forallb (fun hi => forallb (fun lo => ck_word lo hi =? lo + 256 * hi) byte_range) byte_range = true.
+Proof. vm_compute. reflexivity. Qed.
+Lemma ck_word_val lo hi : isb lo -> isb hi -> ck_word lo hi = lo + 256 * hi.
+Proof.
+  intros Hl Hh. pose proof ck_word_all as H. rewrite forallb_forall in H.
+  specialize (H hi (in_byte_range hi Hh)). rewrite forallb_forall in H.
+  specialize (H lo (in_byte_range lo Hl)). lia.
+Qed.
+
+Lemma land_65535 x : 0 <= x -> Z.land 65535 x = x mod 65536.
+Proof. intros H. rewrite Z.land_comm. change 65535 with (Z.ones 16). now rewrite Z.land_ones by lia. Qed.
+
+Lemma ck_fold_add s v : 0 <= s <= 65535 -> 0 <= v <= 65535 ->
+  ck_fold (wrap32 (s + v)) = ones_add s v /\ 0 <= ones_add s v <= 65535.
+Proof.
+  intros Hs Hv. unfold ck_fold, wrap32, ones_add. rewrite (Z.mod_small (s + v)) by lia.
+  rewrite Z.shiftr_div_pow2 by lia. change (2 ^ 16) with 65536.
+  rewrite land_65535 by (assert (0 <= (s + v) / 65536) by (apply Z.div_pos; lia); lia).
+  destruct (s + v >? 65535) eqn:E; split; lia.
+Qed.
+Lemma ck_final_fold_id s : 0 <= s <= 65535 -> ck_final_fold s = s.
+Proof.
+  intros Hs. unfold ck_final_fold. rewrite Z.shiftr_div_pow2 by lia. change (2 ^ 16) with 65536.
+  rewrite land_65535 by (assert (0 <= s / 65536) by (apply Z.div_pos; lia); lia). lia.
+Qed.
+
+Lemma pair_ind (P : list Z -> Prop) :
+  P [] -> (forall x, P [x]) -> (forall x y r, P r -> P (x :: y :: r)) -> forall l : list Z, P l.
+Proof. intros H0 H1 H2. fix IH 1. intros [|x [|y r]]; [exact H0|apply H1|apply H2, IH]. Qed.
+
+Definition evenlen (d : bytes) : Prop := zlen d mod 2 = 0.
+Lemma evenlen_cons2 x y r : evenlen (x :: y :: r) <-> evenlen r.
+Proof. unfold evenlen. rewrite !zlen_cons. split; lia. Qed.
+
+(* the model's zeroing, word by word at absolute position a *)
+Fixpoint wmask (c a : Z) (d : bytes) : bytes :=
+  match d with
+  | lo :: hi :: r => (if ck_zero_cond a c then [0; 0] else [lo; hi]) ++ wmask c (a + 2) r
+  | rest => rest
+  end.
+
+Lemma fold_ones_range l : forall s, 0 <= s <= 65535 -> Forall (fun w => 0 <= w <= 65535) l ->
+  0 <= fold_left ones_add l s <= 65535.
+Proof.
+  induction l as [|w l IH]; intros s Hs Hl; [exact Hs|]. inversion Hl; subst. cbn [fold_left]. apply IH; [|assumption].
+  unfold ones_add. destruct (s + w >? 65535) eqn:E; lia.
+Qed.
+
+Lemma ck_words_wmask c pos : forall d, Forall isb d -> evenlen d -> forall i s, 0 <= s <= 65535 ->
+  ck_words c pos i d s = fold_left ones_add (words (wmask c (pos + i) d)) s /\ 0 <= ck_words c pos i d s <= 65535.
+Proof.
+  intros d. induction d as [| x | x y r IH] using pair_ind; intros Hb He i s Hs.
+  - cbn. split; [reflexivity|exact Hs].
+  - unfold evenlen in He. cbn in He. discriminate.
+  - inversion Hb as [|? ? Hx Hb1]; subst. inversion Hb1 as [|? ? Hy Hb2]; subst. apply evenlen_cons2 in He.
+    cbn [ck_words wmask]. unfold ck_abs.
+    set (z := ck_zero_cond (pos + i) c).
+    assert (Hv : 0 <= (if z then 0 else ck_word x y) <= 65535).
+    { destruct z; [lia|]. rewrite ck_word_val by assumption. unfold isb in *. lia. }
+    destruct (ck_fold_add s _ Hs Hv) as [Hf Hr]. rewrite Hf.
+    destruct (IH Hb2 He (i + 2) _ Hr) as [E R]. rewrite E. split.
+    + replace (pos + (i + 2)) with (pos + i + 2) by lia.
+      destruct z; cbn [app words fold_left]; [reflexivity|]. now rewrite ck_word_val by assumption.
+    + rewrite <- E. exact R.
+Qed.
+
+Lemma words_app a b : evenlen a -> words (a ++ b) = words a ++ words b.
+Proof.
+  induction a as [| x | x y r IH] using pair_ind; intros He.
+  - reflexivity.
+  - unfold evenlen in He. cbn in He. discriminate.
+  - apply evenlen_cons2 in He. cbn [app words]. now rewrite IH.
+Qed.
+Lemma wmask_app c : forall p a d, evenlen p -> wmask c a (p ++ d) = wmask c a p ++ wmask c (a + zlen p) d.
+Proof.
+  intros p. induction p as [| x | x y r IH] using pair_ind; intros a d He.
+  - cbn [app wmask]. change (zlen (@nil Z)) with 0. now rewrite Z.add_0_r.
+  - unfold evenlen in He. cbn in He. discriminate.
+  - apply evenlen_cons2 in He. cbn [app wmask]. rewrite IH by exact He. rewrite <- app_assoc. f_equal. f_equal. f_equal.
+    rewrite !zlen_cons. lia.
+Qed.
+Lemma zlen_wmask c : forall d a, zlen (wmask c a d) = zlen d.
+Proof.
+  intros d. induction d as [| x | x y r IH] using pair_ind; intros a; [reflexivity|reflexivity|].
+  cbn [wmask]. rewrite zlen_app, IH. destruct (ck_zero_cond a c); rewrite !zlen_cons; change (zlen (@nil Z)) with 0; lia.
+Qed.
+
+(* padding of an odd write *)
+Definition pad (d : bytes) : bytes := if ck_write_odd_cond (zlen d) then d ++ [0] else d.
+Lemma odd_cond_spec n : 0 <= n -> ck_write_odd_cond n = negb (n mod 2 =? 0).
+Proof. intros H. unfold ck_write_odd_cond. now rewrite Z.rem_mod_nonneg by lia. Qed.
+Lemma pad_even d : evenlen d -> pad d = d.
+Proof. intros H. unfold pad. rewrite odd_cond_spec by apply zlen_nonneg. unfold evenlen in H. rewrite H. reflexivity. Qed.
+Lemma pad_cons2 x y r : pad (x :: y :: r) = x :: y :: pad r.
+Proof.
+  unfold pad. rewrite !odd_cond_spec by apply zlen_nonneg. rewrite !zlen_cons.
+  replace ((1 + (1 + zlen r)) mod 2 =? 0) with (zlen r mod 2 =? 0) by (pose proof (zlen_nonneg r); lia).
+  destruct (negb (zlen r mod 2 =? 0)); reflexivity.
+Qed.
+Lemma pad_app p d : evenlen p -> pad (p ++ d) = p ++ pad d.
+Proof.
+  induction p as [| x | x y r IH] using pair_ind; intros He.
+  - reflexivity.
+  - unfold evenlen in He. cbn in He. discriminate.
+  - apply evenlen_cons2 in He. cbn [app]. rewrite pad_cons2. now rewrite IH.
+Qed.
+Lemma evenlen_pad d : evenlen (pad d).
+Proof.
+  unfold pad. rewrite odd_cond_spec by apply zlen_nonneg. unfold evenlen.
+  destruct (zlen d mod 2 =? 0) eqn:E; cbn [negb]; [lia|]. rewrite zlen_app. change (zlen [0]) with 1. pose proof (zlen_nonneg d). lia.
+Qed.
+Lemma Forall_isb_pad d : Forall isb d -> Forall isb (pad d).
+Proof. intros H. unfold pad. destruct (ck_write_odd_cond (zlen d)); [|exact H]. apply Forall_app. split; [exact H|]. constructor; [unfold isb; lia|constructor]. Qed.
+
+(* the specification's byte-wise zeroing *)
+Definition zf (c a : Z) (d : bytes) : bytes := if c <? 0 then d else zero_field_from c a d.
+
+(* for an even field offset (or none) word-wise zeroing of the padded data and byte-wise zeroing of the data denote the
+   same 16-bit words *)
+Lemma words_wmask_zf c : c < 0 \/ c mod 2 = 0 -> forall d a, a mod 2 = 0 ->
+  words (wmask c a (pad d)) = words (zf c a d).
+Proof.
+  intros Hc d. induction d as [| x | x y r IH] using pair_ind; intros a Ha.
+  - unfold zf. destruct (c <? 0); reflexivity.
+  - unfold pad. rewrite odd_cond_spec by apply zlen_nonneg. change (zlen [x]) with 1. cbn [Z.modulo Z.div_eucl Z.pos_div_eucl Z.eqb negb app wmask].
+    replace (1 mod 2 =? 0) with false by reflexivity. cbn [negb app wmask].
+    unfold zf, ck_zero_cond. destruct (c <? 0) eqn:Ec.
+    + replace (c >=? 0) with false by lia. cbn [andb app words]. f_equal. lia.
+    + replace (c >=? 0) with true by lia. cbn [andb zero_field_from].
+      destruct ((a =? c) || (a =? c + 2)) eqn:Ez.
+      * replace ((c <=? a) && (a <? c + 4)) with true by lia. reflexivity.
+      * replace ((c <=? a) && (a <? c + 4)) with false by lia. cbn [app words]. f_equal. lia.
+  - rewrite pad_cons2. cbn [wmask]. rewrite words_app.
+    2:{ unfold evenlen. destruct (ck_zero_cond a c); reflexivity. }
+    rewrite IH by lia. unfold zf, ck_zero_cond. destruct (c <? 0) eqn:Ec.
+    + replace (c >=? 0) with false by lia. reflexivity.
+    + replace (c >=? 0) with true by lia. cbn [andb zero_field_from].
+      replace (a + 1 + 1) with (a + 2) by lia.
+      destruct ((a =? c) || (a =? c + 2)) eqn:Ez.
+      * replace ((c <=? a) && (a <? c + 4)) with true by lia.
+        replace ((c <=? a + 1) && (a + 1 <? c + 4)) with true by lia. reflexivity.
+      * replace ((c <=? a) && (a <? c + 4)) with false by lia.
+        replace ((c <=? a + 1) && (a + 1 <? c + 4)) with false by lia. reflexivity.
+Qed.
+
+Definition F (l : bytes) : Z := fold_left ones_add (words l) 0.
+Definition ck_inv (c : Z) (p : bytes) (h : ck) : Prop :=
+  ck_pos h = c /\ ck_off h = zlen p /\ ck_sum h = F (wmask c 0 p) /\ ck_size h = wrap32 (zlen p) /\ ck_odd h = false
+  /\ 0 <= ck_sum h <= 65535.
+
+Lemma wrap32_add a b : wrap32 (wrap32 a + b) = wrap32 (a + b).
+Proof. unfold wrap32. now rewrite Zplus_mod_idemp_l. Qed.
+
+(* one write onto a consistent state: the sum becomes that of the (padded) longer prefix *)
+Lemma ck_write_step c p h d : evenlen p -> Forall isb d -> ck_inv c p h ->
+  exists h', ck_write h d = Ok h' /\ ck_pos h' = c /\ ck_off h' = zlen (p ++ d) /\
+             ck_sum h' = F (wmask c 0 (pad (p ++ d))) /\ ck_size h' = wrap32 (zlen (p ++ d)) /\
+             ck_odd h' = ck_write_odd_cond (zlen d) /\ 0 <= ck_sum h' <= 65535.
+Proof.
+  intros Hp Hb (Hc & Ho & Hs & Hz & Hodd & Hr). unfold ck_write, ck_odd_err_cond. rewrite Hodd.
+  change (if ck_write_odd_cond (zlen d) then d ++ [0] else d) with (pad d).
+  eexists. split; [reflexivity|]. cbn [ck_pos ck_off ck_sum ck_size ck_odd orb].
+  destruct (ck_words_wmask (ck_pos h) (ck_off h) (pad d) (Forall_isb_pad d Hb) (evenlen_pad d) 0 (ck_sum h) Hr) as [E R].
+  rewrite Hc, Ho in *. repeat split; try lia.
+  - unfold ck_pos_advance. rewrite zlen_app. lia.
+  - rewrite E, Hs. rewrite pad_app by exact Hp. rewrite wmask_app by exact Hp. unfold F.
+    rewrite words_app by (unfold evenlen; rewrite zlen_wmask; exact Hp).
+    rewrite fold_left_app. now rewrite Z.add_0_r, Z.add_0_l.
+  - rewrite Hz, wrap32_add, zlen_app. reflexivity.
+Qed.
+
+Lemma ck_write_all_spec c : c < 0 \/ c mod 2 = 0 -> forall ds p h, evenlen p -> Forall isb (concat ds) ->
+  ck_split_ok ds = true -> ck_inv c p h ->
+  exists h', ck_write_all h ds = Ok h' /\ ck_sum h' = F (zf c 0 (p ++ concat ds)) /\
+             ck_size h' = wrap32 (zlen (p ++ concat ds)) /\ 0 <= ck_sum h' <= 65535.
+Proof.
+  intros Hc ds. induction ds as [|d r IH]; intros p h Hp Hb Hok Hi.
+  - exists h. cbn [ck_write_all concat]. rewrite app_nil_r. destruct Hi as (_ & _ & Hs & Hz & _ & Hr).
+    split; [reflexivity|]. split; [|split; assumption].
+    rewrite Hs. unfold F. rewrite <- (pad_even p Hp) at 1. now rewrite words_wmask_zf by (auto; reflexivity).
+  - cbn [concat] in Hb. apply Forall_app in Hb as [Hbd Hbr].
+    destruct (ck_write_step c p h d Hp Hbd Hi) as (h1 & E1 & H1c & H1o & H1s & H1z & H1odd & H1r).
+    cbn [ck_write_all bind]. rewrite E1. cbn [bind].
+    destruct r as [|d2 r'].
+    + exists h1. cbn [ck_write_all concat]. rewrite app_nil_r. split; [reflexivity|]. split; [|split; assumption].
+      rewrite H1s. unfold F. now rewrite words_wmask_zf by (auto; reflexivity).
+    + cbn [ck_split_ok] in Hok. apply andb_true_iff in Hok as [Hev Hok].
+      assert (Hed : evenlen d).
+      { unfold evenlen. rewrite Z.rem_mod_nonneg in Hev by (pose proof (zlen_nonneg d); lia). lia. }
+      assert (Hpd : evenlen (p ++ d)) by (unfold evenlen in *; rewrite zlen_app; lia).
+      destruct (IH (p ++ d) h1 Hpd Hbr Hok) as (h2 & E2 & H2s & H2z & H2r).
+      { repeat split; try assumption; try lia.
+        - rewrite H1s. now rewrite pad_even by exact Hpd.
+        - rewrite H1odd, odd_cond_spec by apply zlen_nonneg. unfold evenlen in Hed. now rewrite Hed. }
+      exists h2. split; [exact E2|]. cbn [concat]. rewrite app_assoc. split; [exact H2s|split; assumption].
+Qed.
+
+Lemma ck_run_spec pe_start ds : pe_start <= 0 \/ pe_start mod 2 = 0 -> Forall isb (concat ds) -> ck_split_ok ds = true ->
+  ck_run pe_start ds = Ok (spec_cksum pe_start (concat ds)).
+Proof.
+  intros Hpe Hb Hok. unfold ck_run, spec_cksum.
+  set (c := if pe_start <=? 0 then -1 else pe_start + 88).
+  assert (Hc : c < 0 \/ c mod 2 = 0) by (subst c; destruct (pe_start <=? 0) eqn:E; lia).
+  destruct (ck_write_all_spec c Hc ds [] (ck_new pe_start) ltac:(reflexivity) Hb Hok) as (h & E & Hs & Hz & Hr).
+  { unfold ck_inv, ck_new, ck_new_none_cond, ck_new_pos. cbn [ck_pos ck_off ck_sum ck_size ck_odd wmask].
+    repeat split; try reflexivity; lia. }
+  rewrite E. cbn [bind app] in *. f_equal. unfold ck_sum_out. rewrite ck_final_fold_id by exact Hr.
+  rewrite Hs, Hz. unfold F, zf, zero_field, wrap32. rewrite Zplus_mod_idemp_r. reflexivity.
+Qed.
